@@ -21,7 +21,9 @@ structure Req where
 
 def outShape (r : Req) : List Nat := if r.valid then List.zipWith validExt r.ns r.ms else r.ns
 def crops (r : Req) : List Int := if r.valid then validCrops r.pad r.ns r.ms else sameCrops r.pad r.ns r.ms
-def frame (r : Req) (t : List Int) : List Int := frameIdx r.Ns (shiftsOf r.pad r.ms) (crops r) t
+/-- all branches of `_fourier_padding` (also a template larger than the target on some axis) -/
+def shifts (r : Req) : List Int := List.zipWith (fun n m => fourierShiftFull n m r.pad) r.ns r.ms
+def frame (r : Req) (t : List Int) : List Int := frameIdx r.Ns (shifts r) (crops r) t
 /-- translation (frame of the scored array) of output position `j` -/
 def transl (r : Req) (j : List Int) : List Int := if r.valid then validT r.ms j else j
 
